@@ -54,6 +54,8 @@ PROPS = {
          "checks": {Q: 200, T: 8000}, "shards": {Q: 2, T: 8}},
         {"name": "withdraw-inside-announcement", "pkg": "internal/layer2", "run": "^TestVerifC13WithdrawInside$",
          "checks": {Q: 4000, T: 400000}, "shards": {Q: 2, T: 16}},
+        {"name": "speaker", "pkg": "speaker", "run": "^TestVerifC13Spk$",
+         "checks": {Q: 6000, T: 800000}, "shards": {Q: 4, T: 16}},
     ]},
     "C05": {"engines": [
         {"name": "speaker", "pkg": "speaker", "run": "^TestVerifC05Spk$",
